@@ -137,8 +137,14 @@ def _singular_huge_row(which):
     precision (2^60 + lambda == 2^60), the normal matrix is exactly singular -> rejected from inside training"""
     def make(rs, cfg, sh):
         target = sh.arms[-1]
-        d, r, X = np.asarray([target]), np.asarray([1.0]), np.full((1, sh.nf), 2.0 ** 30)
-        return "%s with the single row [2^30]*%d for the data-less arm %r" % (which, sh.nf, target), (lambda m: getattr(m, which)(d, r, X))
+        others = [a for a in sh.arms if a != target]
+        k = int(rs.integers(0, 5)) if others else 0  # ordinary rows of other arms (trained or not) in the same batch, before the bad row
+        b = _batch(rs, cfg, sh, n=max(k, 1))
+        d = np.asarray([others[int(i)] for i in rs.integers(0, len(others), k)] + [target]) if k else np.asarray([target])
+        r = np.asarray([float(v) for v in b["r"][:k]] + [1.0])
+        X = np.vstack([np.asarray(b["X"], dtype=float)[:k], np.full((1, sh.nf), 2.0 ** 30)]) if k else np.full((1, sh.nf), 2.0 ** 30)
+        return "%s with %d ordinary row(s) and the row [2^30]*%d for the data-less arm %r" % (which, k, sh.nf, target), \
+            (lambda m: getattr(m, which)(d, r, X))
     return make
 
 
